@@ -156,7 +156,7 @@ Lemma keff_KS s s1 : keff s s1 -> KS s -> KS s1.
 Proof.
   intros E. induction E; intros K; auto.
   - specialize (IHE K). destruct IHE as [A M KK]. constructor; auto.
-  - specialize (IHE K). destruct IHE as [A M KK]. destruct H as (_ & HM & HA). constructor; [rewrite HA; auto | rewrite HM; auto | rewrite HA; auto].
+  - specialize (IHE K). destruct IHE as [A M KK]. destruct H as (_ & HM & HA & _). constructor; [rewrite HA; auto | rewrite HM; auto | rewrite HA; auto].
   - specialize (IHE K). apply KS_upd; auto. eapply aok_same_view; eauto. apply (ks_act _ IHE _ _ H).
   - specialize (IHE K). unfold new_actor.
     set (s2 := log_rec (set_logseq s1 (oz (log_id_next (logseq s1)))) (oz (log_id_next (logseq s1))) LOGLEVEL_OPEN parent 0).
